@@ -9,6 +9,7 @@ pub mod c08;
 pub mod c09;
 pub mod c10;
 pub mod c11;
+pub mod c17;
 pub mod common;
 pub mod rig;
 pub mod robs;
@@ -26,6 +27,7 @@ pub fn dispatch(ctx: &Ctx) -> Option<i32> {
         "C06" => c06_check(ctx),
         "C11" => c11_check(ctx),
         "C13" => c13_check(ctx),
+        "C17" => c17_check(ctx),
         "C15" => c15_check(ctx),
         "C16" => c16_check(ctx),
         "C14" => c14_check(ctx),
@@ -416,6 +418,21 @@ fn c05_check(ctx: &Ctx) -> i32 {
         rule: "one case = one value journey: a generated value (lists, options, pairs, maps, enum variants, nesting <= 3) with 0-12 labelled channel halves of 11 kinds (mpsc S/R, oneshot S/R, watch S/R, broadcast R, bin S/R, lr S/R) is sent over 1-3 connections in a row (re-sent by each receiving endpoint), 25% of the journeys with 8-16 byte receive buffers and 4-16 byte chunks; afterwards every received half and its counterpart at the origin are exercised concurrently. Non-trivial iff >= 2 halves or >= 2 hops. Distinct by hash(shape, hops, interleaving signature). Plus interlock runs (both halves of an lr / bin channel sent away).".into(),
         explanation: "Label matrix: the value delivered through half k must be the one sent into counterpart k (value = label*1000 + direction), exactly the diagonal; a half that delivers nothing and no error by quiescence is a hang; every sent half must arrive, none twice; sending the second half of a single-connection channel must be refused; no PortData frame without ports.".into(),
         assumptions: vec!["max_ports is large enough (64) for every journey: port exhaustion with wait=true is a wait by design and is not driven".into()],
+        exhaustive: false,
+        min_nontrivial: ctx.tier.pick(300, 3000),
+        extra: BTreeMap::new(),
+    };
+    finish(ctx, agg, rep)
+}
+
+fn c17_check(ctx: &Ctx) -> i32 {
+    let budget = Duration::from_secs(ctx.tier.pick(30, 360));
+    let agg = shard_runs(ctx, "main", ctx.tier.pick(20_000, 2_000_000), budget, Duration::from_secs(30), Arc::new(c17::run_one));
+    let rep = Report {
+        level: "exploration",
+        rule: "one case = one history: an Owner on endpoint A, 1-2 local lock clones and 0-2 clones on endpoint B (own or shared cache), each running a script of 1-7 reads (hold 0-10 virtual ms), writes (hold 0-5 ms, commit or drop) and pauses. Non-trivial iff at least two operations of different clients overlap in logical time. Distinct by hash of the recorded history.".into(),
+        explanation: "Recorded on a global logical clock at the client boundary: request, guard obtained (with the value seen), guard released / commit returned. Oracles: no write guard interval overlaps any other guard interval; the value never changes under a read guard; every value read is the initial one or a committed one, not older than a commit that completed before the read began (no stale read), never an uncommitted one; after everything completed a final read returns the last committed value; no request is pending at quiescence although every guard was released.".into(),
+        assumptions: vec!["exclusion and freshness judged on logical time at the client boundary (sound because the owner grants a write only after every copy was dropped)".into(), "deterministic virtual-time leg only (no multi-thread leg yet)".into()],
         exhaustive: false,
         min_nontrivial: ctx.tier.pick(300, 3000),
         extra: BTreeMap::new(),
